@@ -68,6 +68,7 @@ TOL_TABLE = 5.1e-5      # '{:.4E}': half a unit of the 5th significant digit
 G = 9.80665
 L = 0.3
 LO, HI = 0.0625, 0.25   # dyadic bundle bounds of structure 'multi'
+PLATE = 0.0013          # thickness of the plate of structure 'plate'
 KGRID = 1.5
 COOLANT = 'sodium_se2anl_425'
 SITE_GRID = 'RoddedRegion.calculate_spacergrid_pressure_drop'
@@ -121,6 +122,9 @@ def cases(tier):
             for fl in ('lam', 'turb'):
                 for st in ('limit', 'dyadic'):
                     out.append(case(b, 'CTD', fl, st))
+        for fl in FLOWS:
+            for st in STEP_CASES:
+                out.append(case('w3', 'CTD', fl, st, structure='plate'))
         # B  grids on a bare bundle, every grid case x every step x both structures
         for fl in ('lam', 'turb'):
             for st in STEP_CASES:
@@ -144,7 +148,9 @@ def cases(tier):
                 for fl in FLOWS:
                     for st in STEP_CASES:
                         for grav in (False, True):
-                            for struc in ('bundle', 'multi'):
+                            for struc in ('bundle', 'multi', 'plate'):
+                                if struc == 'plate' and (b not in ('w3', 'b3') or fr != 'CTD'):
+                                    continue
                                 out.append(case(b, fr, fl, st, gravity=grav, structure=struc))
         # B  full product on the bare bundles
         for b in ('b2', 'b3', 'b4'):
@@ -176,6 +182,8 @@ def bounds(c):
     """[(name-independent) region bounds bottom to top], bundle index"""
     if c['structure'] == 'bundle':
         return [(0.0, L)], 0
+    if c['structure'] == 'plate':
+        return [(0.0, LO), (LO, LO + PLATE), (LO + PLATE, HI), (HI, L)], 2
     return [(0.0, LO), (LO, HI), (HI, L)], 1
 
 
@@ -185,6 +193,12 @@ def build_scn(c, user_dz, grid_z):
     if c['structure'] == 'multi':
         regions = {'lower': {'z_lo': 0.0, 'z_hi': LO, 'vf_coolant': 0.3},
                    'upper': {'z_lo': HI, 'z_hi': L, 'vf_coolant': 0.35, 'model': '6node'}}
+    elif c['structure'] == 'plate':
+        # a support plate thinner than most steps between the lower region and the bundle: two region boundaries
+        # inside one nominal step
+        regions = {'lower': {'z_lo': 0.0, 'z_hi': LO, 'vf_coolant': 0.3},
+                   'plate': {'z_lo': LO, 'z_hi': LO + PLATE, 'vf_coolant': 0.15},
+                   'upper': {'z_lo': HI, 'z_hi': L, 'vf_coolant': 0.35}}
     spacer = None
     if grid_z:
         if c['grid_model'] == 'K':
